@@ -60,6 +60,10 @@ pub fn instantiate(
     }
 
     validate_stages(&env, &msg.stages)?;
+    ensure!(
+        msg.members.len() == msg.stages.len(),
+        StdError::generic_err("Must have exactly one member list per stage")
+    );
 
     let creation_fee = Decimal::new(msg.member_limit.into(), 3)
         .ceil()
